@@ -491,7 +491,7 @@ def case_pred(ctx, cfg):
     if kind == "more-than-n-arguments":
         # 4 and 5 points in the plane, 5 and 6 points in space; single objects and collections with mixed outcomes
         pts = aff(2, 1)
-        tuples = [t for t in itertools.product(pts, repeat=4) if len(set(t[:2])) == 2][::7]
+        tuples = [t for t in itertools.product(pts, repeat=4) if len(set(t[:2])) == 2]  # includes repeated points
         cols = [G.PointCollection(np.array([list(t[k]) + [1] for t in tuples], dtype=float)) for k in range(4)]
 
         def coll(t):
